@@ -653,6 +653,10 @@ class Message:
                 self.tsig.add(new_tsig)
                 if multi:
                     self.tsig_ctx = ctx
+            if r.was_padded:
+                # The padding was computed from the uncompressed size of the TSIG,
+                # so its owner name must not be compressed.
+                r.compress = {}
             r.add_rrset(dns.renderer.ADDITIONAL, self.tsig)
             r.write_header()
         wire = r.get_wire()
